@@ -39,3 +39,39 @@ PROPS["C07"] = {
     "level_text": "Bounded symbolic model checking of the real strz codecs: every feasible path of Format/Parse (and ToString forms) for all inputs within the length bounds is executed symbolically; round-trip, shape, length, identity and embedding assertions are decided by the solver for all byte values on each path.",
     "level_note": "Trusted: go/ssa translation, gosym interpreter (cross-validated on every run by natively replaying sampled path witnesses), z3. Outside the bound: inputs longer than stated.",
 }
+
+# ------------------------------------------------------------------------------------------- C15
+c15 = "vh/c15."
+FB = {"QueryTimeoutMs": 4000}
+PROPS["C15"] = {
+    "patterns": ["./c15"],
+    "level": "model_checking",
+    "quick": (
+        [J(c15 + "ParseUintArb", n=n) for n in (0, 1, 2, 3)]
+        + [J(c15 + "ParseUintDigits", cfg=FB, n=20, base=10), J(c15 + "ParseUintDigits", cfg=FB, n=17, base=16, free=2), J(c15 + "ParseUintDigits", cfg=FB, n=16, base=16, free=2)]
+        + [J(c15 + "ParseUintBase0", n=n) for n in (1, 2, 3, 4)]
+        + [J(c15 + "HexCodec", n=n) for n in (0, 1, 2, 3, 4, 5)]
+        + [J(c15 + "Base64Codec", n=n) for n in (0, 1, 2, 3, 4)]
+        + [J(c15 + "Base64DecodeArb", n=n) for n in (0, 1, 2, 3, 4, 5)]
+        + [J(c15 + "IPv4", cfg=FB)]
+        + [J(c15 + "Digests", n=n, cuts=1) for n in (0, 1, 3)]
+        + [J(c15 + "Hmacs", nk=2, n=2), J(c15 + "Hmacs", nk=0, n=0)]
+    ),
+    "thorough": (
+        [J(c15 + "ParseUintArb", n=n) for n in (0, 1, 2, 3, 4)]
+        + [J(c15 + "ParseUintDigits", cfg=FB, n=n, base=b, free=f) for (n, b, f) in ((19, 10, 0), (20, 10, 0), (21, 10, 0), (16, 16, 4), (17, 16, 4), (64, 2, 0), (65, 2, 0), (22, 8, 0), (23, 8, 0), (13, 36, 4), (14, 36, 4), (13, 32, 4))]
+        + [J(c15 + "ParseUintBase0", n=n) for n in (1, 2, 3, 4, 5)]
+        + [J(c15 + "HexCodec", n=n) for n in range(0, 8)]
+        + [J(c15 + "Base64Codec", n=n) for n in range(0, 7)]
+        + [J(c15 + "Base64DecodeArb", n=n) for n in range(0, 9)]
+        + [J(c15 + "IPv4", cfg=FB)]
+        + [J(c15 + "Digests", n=n, cuts=c) for n in (0, 1, 2, 3, 5) for c in (1, 2)]
+        + [J(c15 + "Hmacs", nk=k, n=n) for k in (0, 1, 3) for n in (0, 2, 4)]
+    ),
+    "bounds": {"quick": "ParseUint: every string of <= 3 arbitrary bytes x base -1..37 x bitSize -1..65; all 20-digit base-10 numerals and all 16/17-digit base-16 numerals whose letters are confined to the two leading digits (every digit value, both letter cases, every bitSize 0..64); base-0 strings <= 4 chars over the alphabet 0179_xXoObBaFfg+-; hex: every input <= 5 bytes; base64 (Std/URL/RawStd): every input <= 4 bytes, every text <= 5 bytes; IPv4: all 2^32 values; digests: inputs <= 3 bytes, <= 1 short read",
+               "thorough": "ParseUint: <= 4 arbitrary bytes; cut-off lengths for bases 2, 8, 10, 16, 32, 36; base-0 <= 5 chars; hex <= 7 bytes; base64 <= 6 bytes / <= 8 chars; digests <= 5 bytes, <= 2 short reads; hmac keys <= 3, data <= 4 bytes"},
+    "outside": ["longer strings", "the digest / HMAC bit patterns themselves (uninterpreted functions: only 'equal input bytes give equal digests' is used)", "net.IP formatting (modelled as dotted decimal of the four bytes)"],
+    "assumptions": ["MD5/SHA*/HMAC are uninterpreted functions of their input bytes (per input length)", "net.IPv4(...).String() is the dotted decimal of the four bytes (vh/vstub.IPString)", "fmt.Errorf/Sprintf text is compared structurally (format string + argument bytes)"],
+    "level_text": "Differential bounded symbolic model checking: the library routine and the standard-library routine are both executed symbolically from their SSA on the same symbolic input, and the solver decides equality of value / error-ness / error text on every pair of paths, for all inputs within the bounds (including the 64-bit overflow boundary of ParseUint and all 2^32 IPv4 values).",
+    "level_note": "Trusted: go/ssa, gosym (witness-validated each run), z3; digests are uninterpreted functions so only the plumbing (hex case, string/[]byte equivalence, stream = one-shot, input unmodified) is decided.",
+}
